@@ -61,6 +61,9 @@ def run(e: Engine, rep: Report):
              'acceptance facts')
     rep.rule('N4', 'permanent vs transient classification follows the reply '
              'class / exit status / resolver outcome')
+    rep.rule('N8', 'no malformed reply turns into a non-relay exception: the '
+             'code group of reply_line_pattern is included, position by '
+             'position, in code_pattern (regex syntax trees)')
     rep.rule('N6', 'bytes from the subprocess are not compared with str '
              'literals nor put into a Reply undecoded')
     rep.rule('N7', 'a per-recipient result mapping built by a relay is '
@@ -81,6 +84,7 @@ def run(e: Engine, rep: Report):
     n7(e, rep, 'N7')
     n4_catch_all(e, rep)
     n4_dns(e, rep)
+    n8(e, rep)
     rep.floor('N1', 9, 'relay implementations / set sites')
     rep.floor('N2', 12, 'client command sites')
 
@@ -855,6 +859,63 @@ def n4_dns(e: Engine, rep: Report):
                           'answer (NXDOMAIN / NODATA)')
     if n < 2:
         rep.error('anchor vanished: resolver codes in MxRecord (%d < 2)' % n)
+
+
+def n8(e: Engine, rep: Report, rule: str = 'N8'):
+    """Reply.recv stores the parsed code through the validating `code`
+    property, which raises ValueError - not an SmtpError - for what it does
+    not accept.  So every code the reply parser can produce must be one the
+    validator accepts: per-position inclusion of the character classes of
+    reply_line_pattern's code group in those of code_pattern."""
+    from .. import regexast as rx
+    a = rx.module_pattern(e, 'slimta.smtp.io', 'reply_line_pattern')
+    b = rx.module_pattern(e, 'slimta.smtp.reply', 'code_pattern')
+    if a is None or b is None:
+        rep.error('anchor vanished: reply_line_pattern / code_pattern')
+        return
+    # which group of the line pattern is the code?  recv_reply says so
+    ctx = e.method_ctx('slimta.smtp.io.IO', 'recv_reply')
+    gno = None
+    for n in walk_own(ctx.func.node):
+        if isinstance(n, ast.Assign) and len(n.targets) == 1 and \
+                isinstance(n.targets[0], ast.Name) and \
+                n.targets[0].id == 'code' and isinstance(n.value, ast.Call) \
+                and isinstance(n.value.func, ast.Attribute) and \
+                n.value.func.attr == 'group' and n.value.args and \
+                isinstance(n.value.args[0], ast.Constant):
+            gno = n.value.args[0].value
+    rep.evaluations += 1
+    if gno is None:
+        rep.error('anchor vanished: `code = match.group(k)` in recv_reply')
+        return
+    items = rx.find_group(list(rx.parse(a[0], a[1])), gno)
+    got = rx.fixed_charsets(items, a[1]) if items is not None else None
+    want = rx.fixed_charsets(list(rx.parse(b[0], b[1])), b[1])
+    where = 'slimta.smtp.io.reply_line_pattern'
+    mod = e.p.modules['slimta.smtp.io']
+    loc = '%s:%d' % (mod.relpath, a[2].lineno)
+    if got is None or want is None:
+        rep.unknown(rule, where, 'code group vs code_pattern',
+                    'cannot compare the code group of %r with %r'
+                    % (a[0], b[0]), loc=loc)
+        return
+    ok = len(got) == len(want) and all(g <= w for g, w in zip(got, want))
+    extra = ''
+    if not ok and len(got) == len(want):
+        for i, (g, w) in enumerate(zip(got, want)):
+            if not g <= w:
+                extra = 'position %d admits %s' % (
+                    i, ''.join(chr(c) for c in sorted(g - w))[:12])
+                break
+    rep.check(ok, rule, where,
+              'every code the reply parser yields passes Reply.code',
+              'the reply parser takes group %d of %r for the code, but '
+              'Reply.code only accepts %r (%s): such a reply makes Reply.recv '
+              'raise ValueError, which the relay client hands on as it is - '
+              'the attempt ends with an exception that is not a relay error'
+              % (gno, a[0], b[0], extra or 'different length'), loc=loc,
+              reason='character classes of the code group are included in '
+              'those of code_pattern')
 
 
 def n4_catch_all(e: Engine, rep: Report):
